@@ -184,4 +184,59 @@ def pyWhile {σ ρ : Type} (fuel : Nat) (s : σ) (step : σ → Flow σ ρ) : Lo
     | .ret r => .ret r
     | .exc e => .exc e
 
+/-! ### additions for fs/wildcard.py, fs/glob.py, fs/permissions.py, fs/tools.py -/
+
+/-- `s[i:j]` (Python clamping of both bounds) -/
+def pySlice (s : List α) (i j : Int) : List α :=
+  (s.take (clampIdx s.length j)).drop (clampIdx s.length i)
+
+/-- `sep.join(l)` for a separator of any length (also `""`) -/
+def pyJoinS (sep : Str) : List Str → Str
+  | [] => []
+  | [a] => a
+  | a :: b :: rest => a ++ sep ++ pyJoinS sep (b :: rest)
+
+/-- the scan of `s.split(sep)`: `skip` characters of a separator just found are still to be dropped -/
+def splitSGo (sep : Str) : Str → Nat → List Str
+  | [], _ => [[]]
+  | _ :: r, skip + 1 => splitSGo sep r skip
+  | c :: r, 0 =>
+    if !sep.isEmpty && Path.startsWith (c :: r) sep then [] :: splitSGo sep r (sep.length - 1)
+    else
+      match splitSGo sep r 0 with
+      | h :: t => (c :: h) :: t
+      | [] => [[c]]
+
+/-- `s.split(sep)` for a non-empty separator of any length: leftmost, non-overlapping occurrences -/
+def pySplitS (s : Str) (sep : Str) : List Str := splitSGo sep s 0
+
+/-- `enumerate(l)` as a list of (index, element) -/
+def pyEnumerate (l : List α) : List (Nat × α) := (List.range l.length).zip l
+
+/-- `[f(x) for x in l]` when `f` can raise: left to right, the first exception wins -/
+def pyMapM (l : List α) (f : α → Res β) : Res (List β) :=
+  match l with
+  | [] => .ok []
+  | a :: as =>
+    match f a with
+    | .err e => .err e
+    | .ok b =>
+      match pyMapM as f with
+      | .err e => .err e
+      | .ok bs => .ok (b :: bs)
+
+/-- `x or d` for an optional int `x` (`None` and `0` are both false) -/
+def pyOrOptInt (x : Option Int) (d : Int) : Int :=
+  match x with
+  | some c => if c != 0 then c else d
+  | none => d
+
+/-- Python's `a & b` on (unbounded, two's complement) ints.  `-(n+1)` is `~n`; with `x & ~y = x ^ (x & y)` on
+naturals: -/
+def pyBitAnd : Int → Int → Int
+  | .ofNat a, .ofNat b => Int.ofNat (a &&& b)
+  | .ofNat a, .negSucc b => Int.ofNat (a ^^^ (a &&& b))
+  | .negSucc a, .ofNat b => Int.ofNat (b ^^^ (b &&& a))
+  | .negSucc a, .negSucc b => Int.negSucc (a ||| b)
+
 end Fs.PyStr
